@@ -80,8 +80,14 @@ def _fault(ch, kind, toks, style):
         return toks[: i + 1] + [toks[i]] + toks[i + 1 :], None, {"kind": kind, "tok": i, "what": toks[i][0]}
     if kind == "tok_replace" and toks:
         i = ch.int(0, len(toks) - 1)
-        what = ch.choice(["number", "command", "flag", "junk"])
-        if what == "number":
+        what = ch.choice(["number", "command", "flag", "junk", "extreme"])
+        if what == "extreme":
+            # only numeric tokens are replaced by an extreme magnitude: the string stays grammar-conforming
+            nums = [j for j, t in enumerate(toks) if t[0] == "num"]
+            if nums:
+                i = ch.choice(nums)
+            new = ("num", ch.choice(gp.EXTREME_NUMBERS))
+        elif what == "number":
             new = ("num", gp.gen_number(ch, 1.0))
         elif what == "command":
             new = ("cmd", ch.choice(gp.LETTERS))
@@ -395,13 +401,17 @@ def execute(case, se, out, trace):
     ok, msg, nonfinite = ob.all_points_numeric(segs)
     if not ok:
         raise V("usable", ["coordinate", cmd, outcome], "parse(%r) left %s" % (_short(s), msg))
-    if nonfinite or ob.snap_scale(ob.path_snap(segs)) > 1e15:
-        out.count("skip:usable-nonfinite-or-huge")
-        return
+    if nonfinite:
+        if _literal_overflows(s) or (pre is not None and _literal_overflows(pre)):
+            # a literal that no double can hold, or so extreme that ordinary arithmetic on it leaves the range:
+            # inf/nan are then outside "real numeric coordinates" by the input's doing
+            out.count("skip:usable-literal-extreme")
+            return
+        raise V("usable", ["coordinate-nonfinite", cmd, outcome], "parse(%r) retained a segment with an infinite or NaN coordinate although every number in the data is a moderate finite double (1e-150 < |v| < 1e150): %s" % (_short(s), [ob.seg_points(x) for x in segs if not all(ob.finite(v) for pnt in ob.seg_points(x) if isinstance(pnt, tuple) for v in pnt)][:1]))
     if long_input:
         follow = [("d", lambda: p.d()), ("bbox", lambda: p.bbox())]
     else:
-        scale = max(1.0, ob.snap_scale(ob.path_snap(segs)))
+        scale = min(1e300, max(1.0, ob.snap_scale(ob.path_snap(segs))))
         follow = [
             ("d", lambda: p.d()),
             ("d-relative", lambda: p.d(relative=True)),
@@ -420,6 +430,24 @@ def execute(case, se, out, trace):
             raise V("usable", [name, type(e).__name__, core.exc_sig(e)[1]], "%s() on the result of parse(%r) [%s] raised %r" % (name, _short(s), ob.kinds(p), e))
         trace.ev(name, r if not isinstance(r, str) or len(r) < 200 else len(r))
     out.count("probe:usable-checked")
+
+
+def _literal_overflows(s):
+    for m in _NUMTOK.finditer(s):
+        try:
+            v = float(m.group())
+        except (ValueError, OverflowError):
+            return True
+        if v != v or v in (float("inf"), float("-inf")):
+            return True
+        if abs(v) > 1e150 or (v != 0 and abs(v) < 1e-150):
+            # beyond the square root of what a double holds: sums, squares and reflections of such
+            # operands legitimately leave the range; only the exception type is judged for them
+            return True
+    return False
+
+
+_NUMTOK = re.compile(r"[-+]?(?:[0-9]*\.[0-9]+|[0-9]+)(?:[eE][-+]?[0-9]+)?")
 
 
 def _short(s):
